@@ -15,7 +15,9 @@ import (
 	"context"
 	"math"
 	"sort"
+	"sync"
 	"testing"
+	"time"
 
 	"github.com/btcsuite/btcd/btcec/v2"
 	"github.com/btcsuite/btcd/btcutil/v2"
@@ -182,18 +184,53 @@ var _ Graph = (*vGraph)(nil)
 // self, which the caller strips).
 type vRecGraph struct {
 	*vGraph
-	evs *[][]uint64
+	rec *vRec
+}
+
+// vRec collects the events of one findPath call.  It is locked because a
+// non-terminating call is abandoned by the driver (see vCase.run).
+type vRec struct {
+	mu  sync.Mutex
+	evs [][]uint64
+}
+
+func (r *vRec) add(e []uint64) {
+	r.mu.Lock()
+	defer r.mu.Unlock()
+	if len(r.evs) > vMaxEvents {
+		panic(vDiverged{})
+	}
+	r.evs = append(r.evs, e)
+}
+
+func (r *vRec) snapshot() [][]uint64 {
+	r.mu.Lock()
+	defer r.mu.Unlock()
+	return append([][]uint64(nil), r.evs...)
 }
 
 func (g *vRecGraph) ForEachNodeDirectedChannel(ctx context.Context,
 	nodePub route.Vertex, cb func(*graphdb.DirectedChannel) error,
 	reset func()) error {
 
-	*g.evs = append(*g.evs, []uint64{0, uint64(g.idx[nodePub])})
+	g.rec.add([]uint64{0, uint64(g.idx[nodePub])})
 	return g.vGraph.ForEachNodeDirectedChannel(ctx, nodePub, cb, reset)
 }
 
 var _ Graph = (*vRecGraph)(nil)
+
+// vMaxEvents bounds the number of observed events of one findPath call,
+// vMaxSearch its duration (a cyclic nextHop chain makes the unravelling loop
+// at the end of findPath spin without any callback).
+const (
+	vMaxEvents = 20000
+	vMaxSearch = 15 * time.Second
+)
+
+type vDiverged struct{}
+
+// vAbort is set when a findPath call was abandoned; the driver stops.
+var vAbort bool
 
 // edges flattens the graph (incl. hint channels) into directed policies.
 func (g *vGraph) edges() []vEdgeJ {
@@ -403,7 +440,7 @@ func (c *vCase) run(ci int, variant string) *vRow {
 	// Same shape as the probability source that routerrpc builds for
 	// QueryRoutes (ignored nodes / pairs answer 0), mission control being
 	// replaced by a seeded table.
-	var evs [][]uint64
+	rec := &vRec{}
 	probSrc0 := func(from, to route.Vertex) float64 {
 		if _, ok := ignN[from]; ok {
 			return 0
@@ -420,7 +457,10 @@ func (c *vCase) run(ci int, variant string) *vRow {
 		capacity btcutil.Amount) float64 {
 
 		p := probSrc0(from, to)
-		evs = append(evs, []uint64{1, uint64(g.idx[from]),
+		// Watchdog (vRec.add): a search over <= 8 nodes that evaluates
+		// vMaxEvents edges does not terminate (a broken heap order /
+		// improvement test re-pushes popped nodes for ever).
+		rec.add([]uint64{1, uint64(g.idx[from]),
 			uint64(g.idx[to]), uint64(a), uint64(capacity),
 			math.Float64bits(p)})
 		return p
@@ -471,15 +511,56 @@ func (c *vCase) run(ci int, variant string) *vRow {
 	ls, _ := lastHopPayloadSize(restr, finalExpiry, lnwire.MilliSatoshi(c.amt))
 	row.LastSize = ls
 
-	path, prob, err := findPath(
-		&graphParams{
-			graph:           &vRecGraph{vGraph: g, evs: &evs},
-			additionalEdges: g.additional(c.self),
-			bandwidthHints:  &vHints{m: c.hints},
-		},
-		restr, cfg, g.nodes[c.self], g.nodes[c.src], g.nodes[c.dst],
-		lnwire.MilliSatoshi(c.amt), 0, finalExpiry,
+	var (
+		path     []*unifiedEdge
+		prob     float64
+		err      error
+		diverged bool
 	)
+	done := make(chan bool, 1)
+	go func() {
+		defer func() {
+			if x := recover(); x != nil {
+				if _, ok := x.(vDiverged); !ok {
+					panic(x)
+				}
+				done <- true
+			}
+		}()
+		path, prob, err = findPath(
+			&graphParams{
+				graph:           &vRecGraph{vGraph: g, rec: rec},
+				additionalEdges: g.additional(c.self),
+				bandwidthHints:  &vHints{m: c.hints},
+			},
+			restr, cfg, g.nodes[c.self], g.nodes[c.src],
+			g.nodes[c.dst], lnwire.MilliSatoshi(c.amt), 0,
+			finalExpiry,
+		)
+		done <- false
+	}()
+	select {
+	case diverged = <-done:
+	case <-time.After(vMaxSearch):
+		// abandoned: the goroutine keeps spinning until the test
+		// binary exits, which the driver arranges right away
+		diverged, vAbort = true, true
+	}
+	evs := rec.snapshot()
+	if diverged {
+		// keep a prefix of the trace: it already shows nodes being
+		// expanded more than once
+		if c.src == c.self && len(evs) > 0 && evs[0][0] == 0 {
+			evs = evs[1:]
+		}
+		if len(evs) > 300 {
+			evs = evs[:300]
+		}
+		row.Kind = "noroute"
+		row.Err = "findPath does not terminate"
+		row.Evs = evs
+		return row
+	}
 	// The balance pre-check for self also walks self's channels; it is not
 	// an expansion.
 	if c.src == c.self && len(evs) > 0 && evs[0][0] == 0 {
@@ -1090,6 +1171,9 @@ func TestVerifRoute(t *testing.T) {
 		c := vGenCase(r)
 		row := c.run(ci, "base")
 		out.emit(row)
+		if vAbort {
+			return
+		}
 		// Boundary-directed variants: starting from a found route,
 		// move one constraint to the exact value the route needs
 		// (+-1) or forbid one of its elements, and search again.
@@ -1108,6 +1192,9 @@ func TestVerifRoute(t *testing.T) {
 			}
 			rrow := rc.run(ci, "relaxed")
 			out.emit(rrow)
+			if vAbort {
+				return
+			}
 			cur, last = rc, rrow
 		}
 		for k := 0; k < rounds && last.Kind == "route"; k++ {
@@ -1115,6 +1202,9 @@ func TestVerifRoute(t *testing.T) {
 			name := vTighten(r, next, last)
 			nrow := next.run(ci, name)
 			out.emit(nrow)
+			if vAbort {
+				return
+			}
 			if nrow.Kind == "route" {
 				cur, last = next, nrow
 			} else if r.intn(2) == 0 {
